@@ -264,11 +264,12 @@ class Environment:
                         f'until(={at}) must be > the current simulation time.'
                     )
 
-                # Schedule the event before all regular timeouts.
+                # Schedule the event before all regular timeouts, at the very
+                # instant asked for (now + (at - now) need not be at in floats).
                 until = Event(self)
                 until._ok = True
                 until._value = None
-                self.schedule(until, URGENT, at - self.now)
+                heappush(self._queue, (at, URGENT, next(self._eid), until))
 
             elif until.callbacks is None:
                 # Until event has already been processed.
